@@ -257,6 +257,57 @@ def collect_impls(F):
     return impls
 
 
+def check_login_expect(ctx):
+    """login.expect (shared by C04 and C01): the typed login expect helpers - plain and protocol-parameterised, 3 flavours - read
+    one opcode byte, decode M only when it equals M::OPCODE (the read sits in the then-branch of exactly that test) and otherwise
+    return an Opcode error carrying the byte that was read"""
+    from .. import opcodes
+    F = facts("wow_login_messages")
+    n = 0
+    for module, suffix, callee_trait, callee in (("crate::helper::expected", "", "crate::Message", "read"), ("crate::helper::expected_protocol", "_protocol", TRAIT, "read_protocol")):
+        for prefix in ("", "tokio_", "astd_"):
+            for side in ("client", "server"):
+                name = f"{prefix}expect_{side}_message{suffix}"
+                fn = F.fn(f"{module}::{name}")
+                if fn is None:
+                    ctx.violate("login.expect", f"anchor|{name}", f"{module}::{name} not found (anchor disappeared)")
+                    continue
+                n += 1
+                body = H.unwrap_async(fn["hir"])
+                # the opcode byte
+                lets = [x for x in H.walk(body) if isinstance(x, list) and x and x[0] == "let" and H.tag(x[1]) == "bind" and x[1][1] == "opcode"]
+                src = None
+                if len(lets) == 1 and lets[0][2] is not None:
+                    core = lets[0][2]
+                    while H.tag(H.strip(core)) in ("try", "await"):
+                        core = H.strip(core)[1]
+                    core = H.strip(core)
+                    if H.tag(core) == "call":
+                        src = (H.call_path(core) or "").split("::")[-1]
+                if src != f"{prefix}read_u8_le":
+                    ctx.violate("login.expect", f"{name}|opcode-read", f"{name}: `opcode` is not the single byte read by {prefix}read_u8_le (found {src})", fn["file"], fn["line"])
+                ifs = [x for x in H.walk(body) if H.tag(x) == "if"]
+                gates = []
+                for x in ifs:
+                    c = H.strip(x[1])
+                    if H.tag(c) == "bin" and c[2] == "Eq" and {H.local_name(c[4]) or H.path_of(c[4]), H.local_name(c[5]) or H.path_of(c[5])} == {"opcode", "crate::Message::OPCODE"}:
+                        gates.append(x)
+                if len(gates) != 1 or len(ifs) != 1:
+                    conds = [H.short(x[1], maxlen=60) for x in ifs]
+                    ctx.violate("login.expect", f"{name}|gate", f"{name}: the decode is not guarded by exactly one test `opcode == M::OPCODE` (conditions found: {conds})", fn["file"], fn["line"])
+                    continue
+                g = gates[0]
+                want_path = f"{callee_trait}::{prefix}{callee}"
+                all_calls = [x for x in H.walk(body) if H.tag(x) == "call" and (H.call_path(x) or "").startswith(callee_trait + "::")]
+                then_calls = [x for x in H.walk(g[2]) if H.tag(x) == "call" and H.call_path(x) == want_path and H.call_gargs(x)[:1] == ["M"]]
+                if len(all_calls) != 1 or len(then_calls) != 1:
+                    ctx.violate("login.expect", f"{name}|call", f"{name}: M::{prefix}{callee} is not called exactly once, inside the `opcode == M::OPCODE` branch", fn["file"], fn["line"])
+                els = g[3]
+                if els is None or not opcodes.is_err_opcode("wow_login_messages", H.strip(els)[2] if H.tag(H.strip(els)) == "block" and not H.strip(els)[1] else els, {"opcode"}):
+                    ctx.violate("login.expect", f"{name}|else", f"{name}: when the opcode differs the helper does not return ExpectedOpcodeError::Opcode carrying the byte that was read: {H.short(els, maxlen=120) if els is not None else 'no else branch'}", fn["file"], fn["line"])
+    ctx.rule("login.expect", n, floor=12, note="login expect_*_message and expect_*_message_protocol helpers (3 flavours x 2 directions x 2): opcode byte, gate, decode call, offending opcode reported")
+
+
 def check_protocol_routing(ctx):
     """shared with C01 and C04: the protocol-parameterised readers / writers hand protocol version K to version K's own codec
     (coll.dispatch + coll.assoc), so that what C01 / C04 decide per version-specific codec also holds on this public path"""
@@ -265,6 +316,7 @@ def check_protocol_routing(ctx):
     ctx.rule("coll.dispatch", d, floor=12, note="protocol-parameterised default methods (3 flavours x read/write) and expect_*_message_protocol helpers")
     a = check_assoc(ctx, F, collect_impls(F))
     ctx.rule("coll.assoc", a, floor=75, note="normalised VersionK associated types vs the payload types of version K's opcode enums")
+    check_login_expect(ctx)
 
 
 def run(ctx):
@@ -298,6 +350,7 @@ def run(ctx):
     ctx.rule("coll.dispatch", d, floor=12, note="protocol-parameterised default methods (3 flavours x read/write) and expect_*_message_protocol helpers")
     a = check_assoc(ctx, F, impls)
     ctx.rule("coll.assoc", a, floor=75, note="normalised VersionK associated types vs the payload types of version K's opcode enums")
+    check_login_expect(ctx)
     # the opcode-level protocol readers (version_8::opcodes::*OpcodeMessage::*read_protocol) choose the message from the opcode
     # table and must hand their own protocol_version on (rule shared with C01)
     from .. import opcodes
